@@ -3,10 +3,11 @@ CONSTANTS
  WIds = {1, 2}
  RIds = {1, 2, 3, 4, 5}
  NIds = {1, 2, 3, 4, 5}
- KeyIds = {1, 2}
+ KeyIds = {1, 2, 3}
  CfgSet <- CfgQuick
  Univ <- MCUniv
  Faulty = "none"
 CONSTRAINT Bounded
 CHECK_DEADLOCK FALSE
+VIEW MCView
 INVARIANTS TypeOK OneWriter OneHandlePerKey InsideSucceeds BeyondRejected RefusalHasNoSideEffect CountsExact ReadersBounded NodesBounded LimitAdjusted ReadIsSomeWrite Monotone ReadSeesLatest FailureLeavesFirstUndisturbed
